@@ -8,6 +8,7 @@ mod pipeline;
 mod refmodel;
 mod rsview;
 mod l2;
+mod l3;
 mod tape;
 
 use driver::{Ctx, DynProp, Tier, Verdict};
@@ -41,6 +42,31 @@ fn registry() -> Vec<Check> {
             props: checks::c03::props,
         },
         Check {
+            id: "C04",
+            run: checks::c04::run,
+            props: checks::c04::props,
+        },
+        Check {
+            id: "C05",
+            run: checks::c05::run,
+            props: checks::c05::props,
+        },
+        Check {
+            id: "C06",
+            run: checks::c06::run,
+            props: checks::c06::props,
+        },
+        Check {
+            id: "C07",
+            run: checks::c07::run,
+            props: checks::c07::props,
+        },
+        Check {
+            id: "C08",
+            run: checks::c08::run,
+            props: checks::c08::props,
+        },
+        Check {
             id: "C09",
             run: checks::c09::run,
             props: checks::c09::props,
@@ -59,6 +85,11 @@ fn registry() -> Vec<Check> {
             id: "C14",
             run: checks::c14::run,
             props: checks::c14::props,
+        },
+        Check {
+            id: "C15",
+            run: checks::c15::run,
+            props: checks::c15::props,
         },
         Check {
             id: "C16",
@@ -202,6 +233,14 @@ fn main() {
                 i += 1;
             }
             let mut ctx = Ctx::new(&id, tier, seed);
+            // the harness's own budget: a hang in the machinery is reported as exit 2, never as a violation
+            let budget_s: u64 = std::env::var("PV_WATCHDOG_S").ok().and_then(|s| s.parse().ok()).unwrap_or(if tier == Tier::Quick { 1500 } else { 6 * 3600 });
+            std::thread::spawn(move || {
+                std::thread::sleep(std::time::Duration::from_secs(budget_s));
+                eprintln!("MACHINERY-ERROR: watchdog: the check exceeded its own budget of {budget_s} s (inconclusive)");
+                pipeline::cleanup_work_root();
+                std::process::exit(2);
+            });
 
             // known findings / fixed regressions of this property
             let mut lines = vec![];
@@ -271,7 +310,13 @@ fn main() {
                 }
             }
             if ctx.violations.is_empty() {
-                (chk.run)(&mut ctx);
+                let r = std::panic::catch_unwind(std::panic::AssertUnwindSafe(|| (chk.run)(&mut ctx)));
+                if r.is_err() {
+                    let msg = pipeline::LAST_PANIC_ANY.lock().ok().and_then(|g| g.clone()).unwrap_or_default();
+                    eprintln!("MACHINERY-ERROR: the harness itself panicked: {msg}");
+                    pipeline::cleanup_work_root();
+                    std::process::exit(2);
+                }
             }
             ctx.write_evidence();
             pipeline::cleanup_work_root();
